@@ -306,6 +306,23 @@ pub fn run(_args: &[String]) {
                                 let raw_field_ok = raw.get_field::<String>("type").ok().flatten().as_deref() == Some(ty)
                                     && raw.get_field::<Value>("content").ok().flatten().as_ref() == Some(&cont)
                                     && raw.get_field::<Value>("no_such_field").ok().flatten().is_none();
+                                // the same object with its top-level keys spelled with JSON escapes and an unknown escaped key in front
+                                let escaped_text = match &ev {
+                                    Value::Object(m) => format!("{{\"org.example.caf\\u00e9\":1,{}}}", m.iter().map(|(k, v)| {
+                                        let key = if k == "type" { "\"\\u0074ype\"".to_owned() } else if k == "content" { "\"c\\u006fntent\"".to_owned() } else { serde_json::to_string(k).unwrap() };
+                                        format!("{key}:{v}")
+                                    }).collect::<Vec<_>>().join(",")),
+                                    _ => text.clone(),
+                                };
+                                let raw_escaped_ok = match Raw::<Value>::from_json_string(escaped_text.clone()) {
+                                    Ok(r) => r.json().get() == escaped_text
+                                        && r.get_field::<String>("type").ok().flatten().as_deref() == Some(ty)
+                                        && r.get_field::<Value>("content").ok().flatten().as_ref() == Some(&cont)
+                                        && r.get_field::<i64>("org.example.caf\u{e9}").ok().flatten() == Some(1)
+                                        && r.get_field::<Value>("no_such_field").ok().flatten().is_none(),
+                                    Err(_) => false,
+                                };
+                                let raw_field_ok = raw_field_ok && raw_escaped_ok;
                                 let _ = &o.content;
                                 json!({"i": i, "sample": s["sample"], "kind": kind, "type": ty, "wildcard": wildcard, "format": format, "variant": vname, "redacted_in": red, "rv": rv,
                                        "extras": extras, "target": target, "ok": o.ok, "known": o.known, "redacted_out": o.redacted, "type_out": o.type_out,
